@@ -18,8 +18,8 @@ pub const SPEC: PropSpec = PropSpec {
 	level: "exploration",
 	rule: "case = (schema: payload-oriented record/bytes shapes or random; 0..300 conforming values; codec in {null, deflate, bzip2, snappy, xz, zstandard}; level in {default, 1, max, above max}; approx_block_size in {0, 1, 7, 100, 8191..8193, 32767..32769, 65536, default, random}; op pattern over {serialize, serialize_all, finish_block (also empty / twice), push_serialized}; payload compressibility chosen so that compressed block length lands below / at / above the encoders' 32 KiB start buffer and its doublings and decompressed length on multiples of 8 KiB); the file is read back from a slice, BufReader capacities {1, 2, 7, 64, 8191, 8192, 8193, ...} or an irregular chunked reader: exactly the written values in order, then end of stream (twice). distinct by hash(schema shape, file bytes, reader kind)",
 	assumptions: &["the sync marker is fixed through the builder so that runs are reproducible"],
-	cases: (2_500, 400_000),
-	secs: (75, 900),
+	cases: (50_000_000, 4_000_000_000),
+	secs: (45, 900),
 	required: &[
 		"roundtrip_ok",
 		"codec:null",
